@@ -34,6 +34,7 @@ import (
 	pa "github.com/benoitkugler/webrender/css/parser"
 	pr "github.com/benoitkugler/webrender/css/properties"
 	"github.com/benoitkugler/webrender/css/validation"
+	bo "github.com/benoitkugler/webrender/html/boxes"
 	"github.com/benoitkugler/webrender/html/tree"
 	"github.com/benoitkugler/webrender/text"
 	"github.com/benoitkugler/webrender/text/hyphen"
@@ -268,15 +269,17 @@ type node struct {
 	children []int // element children (for printing)
 	depth    int
 	declText string
+	shared   bool // the element also matches the document's shared rule `.s { … }`
 	// filled from the real code
 	decls  map[pr.KnownProp]pr.DeclaredValue
 	states map[pr.KnownProp]string // inherit | initial | explicit
 }
 
 type doc struct {
-	nodes []*node
-	src   string
-	fonts bool
+	nodes  []*node
+	src    string
+	fonts  bool
+	shared string // declarations of the rule `.s`, shared by several elements
 }
 
 func (u *universe) genDecls(r *rng.R, q int, root bool) string {
@@ -339,6 +342,15 @@ func (u *universe) genDoc(r *rng.R, fonts bool) *doc {
 		}
 		elems = append(elems, n.id)
 	}
+	// one rule shared by several elements (one declared value object for all of them)
+	if r.P(2, 3) {
+		d.shared = u.genDecls(r, rng.Pick(r, 10, 20, 35), false)
+		for _, id := range elems {
+			if r.P(1, 2) {
+				d.nodes[id].shared = true
+			}
+		}
+	}
 	// pseudo-elements (exist only with at least one declaration)
 	for _, id := range append([]int{0}, elems...) {
 		for _, ps := range []string{"before", "after"} {
@@ -373,6 +385,9 @@ func (u *universe) genDoc(r *rng.R, fonts bool) *doc {
 	}
 	// html text
 	var css strings.Builder
+	if d.shared != "" {
+		fmt.Fprintf(&css, ".s { %s }\n", d.shared)
+	}
 	for _, n := range d.nodes {
 		switch n.kind {
 		case "before", "after":
@@ -391,7 +406,11 @@ func (u *universe) genDoc(r *rng.R, fonts bool) *doc {
 	var emit func(id int)
 	emit = func(id int) {
 		n := d.nodes[id]
-		fmt.Fprintf(&b, `<%s id="n%d" style="%s">`, n.tag, n.id, html.EscapeString(n.declText))
+		cls := ""
+		if n.shared {
+			cls = ` class="s"`
+		}
+		fmt.Fprintf(&b, `<%s id="n%d"%s style="%s">`, n.tag, n.id, cls, html.EscapeString(n.declText))
 		if n.tag == "html" {
 			fmt.Fprintf(&b, "<head><style>\n%s</style></head>", css.String())
 		}
@@ -409,10 +428,14 @@ func (u *universe) genDoc(r *rng.R, fonts bool) *doc {
 	for _, n := range d.nodes {
 		n.decls = map[pr.KnownProp]pr.DeclaredValue{}
 		n.states = map[pr.KnownProp]string{}
-		if n.declText == "" {
+		txt := n.declText
+		if n.shared {
+			txt = d.shared + "; " + n.declText // the style attribute wins over the class rule
+		}
+		if strings.Trim(txt, "; ") == "" {
 			continue
 		}
-		for _, dc := range validation.PreprocessDeclarations("", pa.ParseBlocksContentsString(n.declText)) {
+		for _, dc := range validation.PreprocessDeclarations("", pa.ParseBlocksContentsString(txt)) {
 			if dc.Name.KnownProp == 0 {
 				continue
 			}
@@ -719,12 +742,15 @@ func Replay(path string, modelPath, repo string, out *res.Result) error {
 	}
 	defer m.Close()
 	directedStyleFor(out)
-	if rp.Finding.Seed == 0 {
-		return nil
-	}
+	directedShared(out)
+	directedFontRelativeTuples(out)
 	fonts, err := render.NewFonts(repo)
 	if err != nil {
 		return err
+	}
+	directedLayoutInherit(out, fonts, rng.New(1^0x5bd1e995), "quick")
+	if rp.Finding.Seed == 0 {
+		return nil
 	}
 	u := newUniverse()
 	cr := rng.New(rp.Finding.Seed)
@@ -824,11 +850,14 @@ func Run(tier string, seed uint64, modelPath, repo string, out *res.Result) erro
 	}
 
 	directedStyleFor(out)
+	directedShared(out)
+	directedFontRelativeTuples(out)
 
 	fonts, err := render.NewFonts(repo)
 	if err != nil {
 		return err
 	}
+	directedLayoutInherit(out, fonts, rng.New(seed^0x5bd1e995), tier)
 	r := rng.New(seed)
 	for i := 0; i < nTrees; i++ {
 		cr := r.Sub()
@@ -1200,4 +1229,256 @@ func (d *doc) publicPass(r *rng.R, valA [][]pr.CssProperty, input func(*node, pr
 		}
 	}
 	return nil
+}
+
+// ---------------------------------------------------------------------------------------------
+// (a) one declaration shared by several elements: the computed value of each element must be what
+// the element gets when the rule applies to it alone, in every access order.
+
+// font-relative values for every tuple / list valued (and a few scalar) properties
+var sharedValues = []struct{ prop, value string }{
+	{"transform", "translate(1em, 2em)"}, {"transform", "translateX(2ex)"}, {"transform", "translateY(3ch) rotate(10deg) translate(1em)"},
+	{"transform-origin", "1em 2em"}, {"transform-origin", "2ex 10%"},
+	{"background-position", "1em 2em"}, {"background-position", "right 1em bottom 2ex, 3ch 4em"},
+	{"background-size", "1em 2em"}, {"background-size", "2ex auto, 10% 3ch"},
+	{"border-spacing", "1em 2em"}, {"border-spacing", "3ex"},
+	{"border-top-left-radius", "1em 2em"}, {"border-bottom-right-radius", "2ch"},
+	{"background-image", "linear-gradient(red 1em, blue 3em)"}, {"background-image", "radial-gradient(circle 2em at 1em 3ex, red 1ch, blue)"},
+	{"background-image", "radial-gradient(1em 2em at 10% 2em, red, blue 4em)"},
+	{"clip", "rect(1em, 2em, 3ex, 4ch)"},
+	{"object-position", "1em 2ex"},
+	{"border-image-outset", "1em 2ex"}, {"border-image-width", "1em 2"},
+	{"grid-template-columns", "1em 2em"}, {"grid-template-rows", "[a] 1em [b] minmax(2ex, 3em)"}, {"grid-template-columns", "repeat(2, 1em 2ch)"},
+	{"grid-auto-columns", "1em 2em"}, {"grid-auto-rows", "minmax(1em, 2ex)"},
+	{"margin-top", "2em"}, {"padding-left", "3ex"}, {"width", "4ch"}, {"line-height", "2em"}, {"letter-spacing", "1ex"}, {"word-spacing", "2ch"},
+	{"text-indent", "2em"}, {"border-top-width", "1em"}, {"outline-width", "2ex"}, {"column-gap", "2em"}, {"tab-size", "3em"},
+	{"vertical-align", "2em"}, {"column-width", "10em"}, {"flex-basis", "3em"}, {"bleed-top", "1em"}, {"hyphenate-limit-zone", "2em"},
+}
+
+func directedShared(out *res.Result) {
+	const body = `<div id="a" class="t" style="font-size:10px"></div><div id="b" class="t" style="font-size:30px"><span id="c" class="t" style="font-size:50%"></span></div><p id="d" class="t" style="font-size:8pt">x</p>`
+	ids := []string{"a", "b", "c", "d"}
+	read := func(selector, prop, value string, order []string) (map[string]string, error) {
+		src := fmt.Sprintf(`<style>%s { border-top-style: solid; outline-style: solid; %s: %s }</style>%s`, selector, prop, value, body)
+		h, err := tree.NewHTML(utils.InputString(src), "", nil, "")
+		if err != nil {
+			return nil, err
+		}
+		sf := tree.GetAllComputedStyles(h, nil, false, nil, nil, nil, nil, false, nil)
+		els := map[string]*utils.HTMLNode{}
+		it := h.Root.Iter()
+		for it.HasNext() {
+			e := it.Next()
+			els[e.Get("id")] = e
+		}
+		res := map[string]string{}
+		key := pr.PropsFromNames[prop].Key()
+		for _, id := range order {
+			res[id] = sprint(tree.VerifC04RawStyle(sf, els[id], "").Get(key))
+		}
+		return res, nil
+	}
+	for _, sv := range sharedValues {
+		if validate1(sv.prop, sv.value) == nil {
+			out.Notes = append(out.Notes, "shared-rule value rejected by the validator: "+sv.prop+": "+sv.value)
+			continue
+		}
+		oc := render.Guard(30*time.Second, func() {
+			// each element alone
+			alone := map[string]string{}
+			for _, id := range ids {
+				m, err := read("#"+id, sv.prop, sv.value, []string{id})
+				if err != nil {
+					return
+				}
+				alone[id] = m[id]
+			}
+			for _, order := range [][]string{{"a", "b", "c", "d"}, {"d", "c", "b", "a"}, {"b", "d", "a", "c"}} {
+				m, err := read(".t", sv.prop, sv.value, order)
+				if err != nil {
+					return
+				}
+				out.Evaluations += len(ids)
+				out.Nontrivial += len(ids)
+				out.Hit("directed:shared-declaration")
+				for _, id := range ids {
+					if m[id] != alone[id] {
+						out.Add(res.Finding{Kind: "judge", Op: "judge:shared-declaration",
+							Input:  fmt.Sprintf(`<style>.t { %s: %s }</style>%s`, sv.prop, sv.value, body),
+							Impl:   fmt.Sprintf("#%s read in the order %v: %s", id, order, m[id]),
+							Model:  fmt.Sprintf("#%s when the rule applies to it alone: %s", id, alone[id]),
+							Reason: "the computed value of an element must depend only on its own cascaded value and its parent, not on the other elements the declaration applies to nor on the access order",
+							Key:    sv.prop})
+						break
+					}
+				}
+			}
+		})
+		if !oc.OK() {
+			out.Add(res.Finding{Kind: "crash", Op: "crash:directed-shared", Input: sv.prop + ": " + sv.value, Reason: oc.Panic, Key: oc.Site})
+		}
+	}
+}
+
+// ---------------------------------------------------------------------------------------------
+// (b) `inherit` of non-inherited properties below elements whose boxes get style copies (table
+// wrappers, flex / grid containers and items): after the FULL layout the style of the child box must
+// still hold the computed value of the parent ELEMENT.
+
+var wrapperProps = []struct{ prop, value string }{
+	{"opacity", "0.5"}, {"top", "7px"}, {"left", "3px"}, {"right", "2em"}, {"bottom", "5pt"}, {"z-index", "4"}, {"clear", "both"},
+	{"position", "relative"}, {"overflow", "hidden"}, {"vertical-align", "top"}, {"transform-origin", "1px 2px"},
+	{"break-inside", "avoid"}, {"break-before", "avoid"}, {"counter-increment", "a 2"}, {"counter-reset", "b 3"},
+	{"width", "120px"}, {"height", "40px"}, {"min-width", "10px"}, {"box-sizing", "border-box"}, {"background-color", "red"},
+	{"border-top-style", "solid"}, {"border-top-width", "2px"}, {"outline-style", "dotted"}, {"text-decoration-style", "wavy"},
+	{"flex-grow", "2"}, {"order", "3"}, {"align-self", "center"}, {"text-overflow", "ellipsis"}, {"unicode-bidi", "embed"}, {"table-layout", "fixed"},
+}
+
+func directedLayoutInherit(out *res.Result, fonts text.FontConfiguration, r *rng.R, tier string) {
+	n := 24
+	if tier == "thorough" {
+		n = 400
+	}
+	parents := []string{"table", "inline-table", "flex", "inline-flex", "block", "inline-block", "grid", "list-item"}
+	children := map[string][]string{
+		"table": {"table-cell", "table-row", "block", "table-caption"}, "inline-table": {"table-cell", "table-row"},
+		"flex": {"block", "inline"}, "inline-flex": {"block"}, "block": {"block", "inline"}, "inline-block": {"block"}, "grid": {"block"}, "list-item": {"block"},
+	}
+	for i := 0; i < n; i++ {
+		cr := r.Sub()
+		pd := parents[i%len(parents)]
+		cd := children[pd][cr.Intn(len(children[pd]))]
+		var pdecl, cdecl []string
+		var props []string
+		for _, wp := range wrapperProps {
+			if cr.P(1, 2) {
+				pdecl = append(pdecl, wp.prop+": "+wp.value)
+				cdecl = append(cdecl, wp.prop+": inherit")
+				props = append(props, wp.prop)
+			}
+		}
+		if len(props) == 0 {
+			continue
+		}
+		src := fmt.Sprintf(`<style>@page { size: 400px 300px; margin: 0 } #t { display: %s; %s } #c { display: %s; %s }</style><body><div id="t"><div id="c">x</div><div>y</div></div><p>z</p></body>`,
+			pd, strings.Join(pdecl, "; "), cd, strings.Join(cdecl, "; "))
+		// expected: the computed values of the parent element, from the styles alone (nothing laid out)
+		want := map[string]string{}
+		var got map[string]string
+		laidOut := false
+		oc := render.Guard(60*time.Second, func() {
+			h, err := tree.NewHTML(utils.InputString(src), "", nil, "")
+			if err != nil {
+				return
+			}
+			sf := tree.GetAllComputedStyles(h, nil, false, nil, nil, nil, nil, false, nil)
+			it := h.Root.Iter()
+			for it.HasNext() {
+				e := it.Next()
+				if e.Get("id") == "t" {
+					st := tree.VerifC04RawStyle(sf, e, "")
+					for _, p := range props {
+						want[p] = sprint(st.Get(pr.PropsFromNames[p].Key()))
+					}
+				}
+			}
+			pages, _, err := render.LayoutOnly(src, fonts, render.Opts{})
+			if err != nil {
+				return
+			}
+			for _, pg := range pages {
+				for _, b := range bo.Descendants(pg) {
+					if el := b.Box().Element; el != nil && b.Box().PseudoType == "" && !b.Box().IsTableWrapper && (*utils.HTMLNode)(el).Get("id") == "c" && got == nil {
+						got = map[string]string{}
+						for _, p := range props {
+							got[p] = sprint(b.Box().Style.Get(pr.PropsFromNames[p].Key()))
+						}
+					}
+				}
+			}
+			laidOut = true
+		})
+		if !oc.OK() || !laidOut {
+			out.Hit("directed:layout-inherit:layout-failed(C01)")
+			continue
+		}
+		if got == nil {
+			out.Hit("directed:layout-inherit:child-box-not-found")
+			continue
+		}
+		out.Hit("directed:layout-inherit:" + pd)
+		out.Evaluations += len(props)
+		out.Nontrivial += len(props)
+		for _, p := range props {
+			if got[p] != want[p] {
+				out.Add(res.Finding{Kind: "judge", Op: "judge:inherit-after-layout", Input: src, Impl: p + ": inherit on #c after layout = " + got[p],
+					Model: "computed value of the parent element #t = " + want[p], Reason: "`inherit` must give the parent element's computed value; building / laying out the boxes must not change it",
+					Key: p + "@" + pd, Seed: cr.Seed()})
+			}
+		}
+	}
+}
+
+// directedFontRelativeTuples: em / ex inside list valued properties are made absolute with the
+// element's own computed font size (10px here; no font configuration: ex ratio 1).
+func directedFontRelativeTuples(out *res.Result) {
+	cases := []struct {
+		key, decl string
+		props     []string
+		want      []float64 // the px lengths expected somewhere in the printed computed value, in order
+	}{
+		{"border-image-outset", "border-image-outset: 2em 3ex", []string{"border-image-outset"}, []float64{20, 30, 20, 30}},
+		{"grid-tracks", "grid-auto-rows: 2em; grid-auto-columns: 3ex; grid-template-columns: 2em minmax(1em, 4em)", []string{"grid-auto-rows", "grid-auto-columns", "grid-template-columns"}, []float64{20, 30, 20, 10, 40}},
+		{"transform", "transform: translate(2em, 3ex)", []string{"transform"}, []float64{20, 30}},
+		{"border-spacing", "border-spacing: 2em 3ex", []string{"border-spacing"}, []float64{20, 30}},
+		{"background-position", "background-position: 2em 3ex", []string{"background-position"}, []float64{20, 30}},
+		{"transform-origin", "transform-origin: 2em 3ex", []string{"transform-origin"}, []float64{20, 30}},
+		{"clip", "clip: rect(2em, 3ex, 4em, 1em)", []string{"clip"}, []float64{20, 30, 40, 10}},
+	}
+	for _, c := range cases {
+		src := fmt.Sprintf(`<div id="a" style="font-size:10px; %s"></div>`, c.decl)
+		var got []float64
+		var printed string
+		oc := render.Guard(30*time.Second, func() {
+			h, err := tree.NewHTML(utils.InputString(src), "", nil, "")
+			if err != nil {
+				return
+			}
+			sf := tree.GetAllComputedStyles(h, nil, false, nil, nil, nil, nil, false, nil)
+			it := h.Root.Iter()
+			for it.HasNext() {
+				e := it.Next()
+				if e.Get("id") != "a" {
+					continue
+				}
+				for _, p := range c.props {
+					s := fmt.Sprintf("%#v", tree.VerifC04RawStyle(sf, e, "").Get(pr.PropsFromNames[p].Key()))
+					printed += p + " = " + s + "; "
+					// every Dimension{Value:v, Unit:0x7} (px) of the printed value, in order
+					for _, part := range strings.Split(s, "Value:")[1:] {
+						var v float64
+						var u int
+						if n, _ := fmt.Sscanf(part, "%g, Unit:0x%x", &v, &u); n == 2 && (u == int(pr.Px) || u == int(pr.Scalar)) {
+							got = append(got, v)
+						}
+					}
+				}
+			}
+		})
+		out.Evaluations++
+		out.Nontrivial++
+		out.Hit("directed:font-relative-tuple")
+		if !oc.OK() {
+			out.Add(res.Finding{Kind: "crash", Op: "crash:directed-tuple", Input: src, Reason: oc.Panic, Key: oc.Site})
+			continue
+		}
+		ok := len(got) == len(c.want)
+		for i := 0; ok && i < len(got); i++ {
+			ok = math.Abs(got[i]-c.want[i]) <= 1e-4
+		}
+		if !ok {
+			out.Add(res.Finding{Kind: "judge", Op: "judge:font-relative-tuple", Input: src, Impl: fmt.Sprintf("px lengths %v in %s", got, printed),
+				Model: fmt.Sprintf("px lengths %v", c.want), Reason: "em / ex lengths must be made absolute with the element's own computed font size (10px)", Key: c.key})
+		}
+	}
 }
